@@ -126,6 +126,79 @@ Case genBoolDeg() {
   return c;
 }
 
+
+// ---- ClipperD (double coordinates, ZCallbackD) ------------------------------------
+Verdict judgeBoolD(const Case& c) {
+  Verdict v;
+  const Paths64 &subj = c.P("subj"), &clip = c.P("clip"), &open = c.P("open");
+  Paths64 all = subj;
+  all.insert(all.end(), clip.begin(), clip.end());
+  Paths64 allO = all;
+  allO.insert(allO.end(), open.begin(), open.end());
+  int64_t m = O::maxAbs(allO);
+  if (m > (int64_t(1) << 40) || all.empty()) { v.discard = true; return v; }
+  for (auto& p : all) if (p.size() < 3) { v.discard = true; return v; }
+  for (auto& p : open) if (p.size() < 2) { v.discard = true; return v; }
+  std::vector<O::Seg> osegs = O::segsOf(open, false, (int)all.size());
+  if (!O::generalPosition(O::segsOf(all), 3.0L + (ld)m * ldexpl(1.0L, -40), nullptr, &osegs)) { v.discard = true; return v; }
+  auto toD = [](const Paths64& pp, const Paths64& zz) {
+    shim::PathsD r;
+    for (size_t i = 0; i < pp.size(); ++i) { shim::PathD q; for (size_t k = 0; k < pp[i].size(); ++k) q.push_back({(double)pp[i][k].x, (double)pp[i][k].y, i < zz.size() && k < zz[i].size() ? zz[i][k].x : 0}); r.push_back(q); }
+    return r;
+  };
+  shim::BoolArgsD a;
+  a.subj = toD(subj, c.P("subj_z")); a.clip = toD(clip, c.P("clip_z")); a.open = toD(open, c.P("open_z"));
+  a.ct = 1 + (int)(c.I("ct") & 3); a.fr = (int)(c.I("fr") & 3); a.precision = (int)c.I("prec", 2);
+  a.preserveCollinear = c.I("pc") != 0; a.reverse = c.I("rev") != 0; a.useTree = c.I("tree") != 0;
+  a.zcb = (int)(c.I("zcb") % 3); a.zconst = c.I("zconst");
+  shim::BoolResultD rz = shim_z::boolopD(a);
+  ClipperD cl(a.precision);
+  cl.PreserveCollinear(a.preserveCollinear); cl.ReverseSolution(a.reverse);
+  cl.AddSubject(TransformPaths<double, int64_t>(subj)); if (!open.empty()) cl.AddOpenSubject(TransformPaths<double, int64_t>(open)); if (!clip.empty()) cl.AddClip(TransformPaths<double, int64_t>(clip));
+  PathsD pc, po;
+  bool ok;
+  if (a.useTree) { PolyTreeD t; ok = cl.Execute((ClipType)a.ct, (FillRule)a.fr, t, po); pc = PolyTreeToPathsD(t); }
+  else ok = cl.Execute((ClipType)a.ct, (FillRule)a.fr, pc, po);
+  v.evals = 2;
+  std::string cfg = std::string(" [ClipperD,precision=") + std::to_string(a.precision) + "," + O::ctName((ClipType)a.ct) + "," + O::frName((FillRule)a.fr) + (a.useTree ? ",tree" : ",paths") + ",zcallback=" + std::to_string(a.zcb) + "]";
+  if (ok != rz.ok || rz.threw) { v.fail("ClipperD Execute success differs between the plain and the USINGZ build" + cfg); return v; }
+  auto sameXYD = [](const shim::PathsD& x, const PathsD& y) {
+    if (x.size() != y.size()) return false;
+    for (size_t i = 0; i < x.size(); ++i) { if (x[i].size() != y[i].size()) return false; for (size_t k = 0; k < x[i].size(); ++k) if (x[i][k].x != y[i][k].x || x[i][k].y != y[i][k].y) return false; }
+    return true;
+  };
+  if (!sameXYD(rz.closed, pc)) { v.fail("closed solution x,y differs between the plain and the USINGZ build" + cfg); return v; }
+  if (!sameXYD(rz.open, po)) { v.fail("open solution x,y differs between the plain and the USINGZ build" + cfg); return v; }
+  // Z accounting: a vertex either sits on an input vertex and carries an input Z given there, or carries a Z the callback assigned
+  std::map<std::pair<double, double>, std::set<int64_t>> inputZ;
+  for (auto* sp : {&a.subj, &a.clip, &a.open}) for (auto& p : *sp) for (auto& q : p) inputZ[{q.x, q.y}].insert(q.z);
+  std::set<int64_t> assigned;
+  for (auto& l : rz.zlog) assigned.insert(l.z);
+  bool newVertex = false;
+  for (auto* sp : {&rz.closed, &rz.open})
+    for (auto& p : *sp)
+      for (auto& q : p) {
+        auto it = inputZ.find({q.x, q.y});
+        if (it == inputZ.end()) newVertex = true;
+        bool fromInput = it != inputZ.end() && it->second.count(q.z);
+        if (a.zcb) {
+          if (!fromInput && !assigned.count(q.z)) { v.fail("solution vertex (" + std::to_string(q.x) + "," + std::to_string(q.y) + ") carries z=" + std::to_string(q.z) + ", which is neither an input Z at that location nor a value the callback assigned" + cfg); return v; }
+        } else if (it != inputZ.end() && !fromInput && q.z != 0) {
+          v.fail("solution vertex at an input location carries a foreign z=" + std::to_string(q.z) + cfg); return v;
+        } else if (it == inputZ.end() && q.z != 0) {
+          v.fail("new vertex carries z=" + std::to_string(q.z) + " without a callback" + cfg); return v;
+        }
+      }
+  v.nontrivial = newVertex;
+  ST.count("clipperD_precision_" + std::to_string(a.precision));
+  return v;
+}
+Case genBoolD() {
+  Case c = genBoolGp();
+  c.i["prec"] = G::oneOf(std::vector<int64_t>{0, 1, 2, 2, 3, 4});
+  return c;
+}
+
 // ---- offsetting and rectangle clipping: geometry only ---------------------------
 Verdict judgeOffset(const Case& c) {
   Verdict v;
@@ -206,6 +279,7 @@ int main(int argc, char** argv) {
   H.property = "C15";
   H.parts.push_back({"bool_gp", genBoolGp, judgeBoolGp, nullptr, true});
   H.parts.push_back({"bool_deg", genBoolDeg, judgeBoolDeg, nullptr, true});
+  H.parts.push_back({"boolD_gp", genBoolD, judgeBoolD, nullptr, true});
   H.parts.push_back({"offset", genOffset, judgeOffset, nullptr, true});
   H.parts.push_back({"rect", genRect, judgeRect, nullptr, true});
   return harnessMain(argc, argv, H);
